@@ -246,7 +246,13 @@ def native_replay(name, hexbytes, profile, log=None):
     env = env_base()
     env["RUSTFLAGS"] = "--cfg p2sh_verif"
     env["VERIF_REPLAY_HARNESS"] = name
-    env["VERIF_REPLAY_BYTES"] = hexbytes
+    if len(hexbytes) > 60000:
+        fpath = os.path.join(BUILD, f"replay.{os.getpid()}.txt")
+        open(fpath, "w").write(hexbytes.replace(";", "\n"))
+        env["VERIF_REPLAY_BYTES_FILE"] = fpath
+        env.pop("VERIF_REPLAY_BYTES", None)
+    else:
+        env["VERIF_REPLAY_BYTES"] = hexbytes
     env["RUST_BACKTRACE"] = "0"
     cmd = ["cargo", "test", "--offline", "--target-dir", tdir]
     if profile == "release":
@@ -268,5 +274,29 @@ def native_replay(name, hexbytes, profile, log=None):
     if "VERIF-REPLAY-COMPLETED-WITHOUT-FAILURE" in out:
         return "passed", tail
     if "VERIF-REPLAY-START" in out and ("panicked at" in out or p.returncode != 0):
+        m = re.search(r"VERIF-REPLAY-REPRODUCED idx=\d+ bytes=([0-9a-fA-F]*)", out)
+        if m:
+            tail = "REPRODUCING-STREAM " + m.group(1) + "\n" + tail
         return "reproduced", tail
     return "error", tail
+
+
+def witness_candidates(h):
+    """When Kani's concrete playback yields nothing (C21: CBMC runs out of memory building the trace
+    over the 4096-byte buffer), the violation the solver established is reproduced by searching the
+    SAME bounded input space natively: all byte streams of the harness's symbolic variables within
+    the stamp's bound. Only used to obtain a reportable witness; the verdict is the solver's."""
+    import itertools, struct, re as _re
+    m = _re.match(r"read_prefix::<(\d+)>\((\d+)\)", h.call)
+    if not m:
+        return []
+    B = int(m.group(1))
+    out = []
+    content = bytes(range(0x41, 0x41 + B))
+    ns = list(range(0, B + 2)) + [(1 << 64) - 1]
+    for ln in range(0, B + 1):
+        for n in ns:
+            for depth in range(0, B + 2):
+                for ks in itertools.product(range(1, B + 1), repeat=depth):
+                    out.append((content + struct.pack("<Q", ln) + struct.pack("<Q", n) + b"".join(struct.pack("<Q", k) for k in ks)).hex())
+    return out
